@@ -162,6 +162,18 @@ def check_config(sc, c, do_mp=False, do_scaling=False):
     info["min_eig_rel"] = float(w.min() / w.max())
     if w.min() < -2e-5 * w.max():
         bad.append(("covariance:not-positive-semidefinite", dict(min_eig_rel=info["min_eig_rel"])))
+    if do_scaling and not bad and c["nw"] >= 2:
+        # deriving a reconstructor from the object does not change the matrix it holds / returns
+        cm2 = build(sc, c)
+        first = np.array(cm2.make_covariance_matrix(), copy=True)
+        try:
+            cm2.make_tomographic_reconstructor(0.01)
+            held = np.asarray(cm2.covariance_matrix)
+            if held.shape != first.shape or not np.array_equal(held, first) or not np.array_equal(np.asarray(cm2.make_covariance_matrix()), first):
+                bad.append(("covariance:changed-by-deriving-a-reconstructor", dict(max_rel=float(np.abs(held - first).max() / np.abs(first).max())
+                                                                                  if held.shape == first.shape else None)))
+        except np.linalg.LinAlgError:
+            pass
     if do_scaling and not bad:
         # the same lattice bound to other physical scales (see PHYS_FAMILIES)
         for fam in PHYS_FAMILIES:
